@@ -1,7 +1,11 @@
 ----------------------------- MODULE TraceDetect -----------------------------
 (***************************************************************************)
-(* Trace validation of one recorded `detect_validators` loop against       *)
-(* Detect.tla.  The context (the detectors that fire on each kept block,   *)
+(* Trace validation of recorded `detect_validators` loops against         *)
+(* Detect.tla -- many runs per TLC process: every `detect_start` event     *)
+(* (re)initialises the specification's variables from the logged context.  *)
+(* (FileSet is 1..MaxCtx, the longest context of the batch; a shorter run  *)
+(* leaves the surplus pseudo-files out of `todo`, they need nothing.)      *)
+(* The context (the detectors that fire on each kept block,                *)
 (* projected from the logged attributes) is the specification's `needs`;   *)
 (* one pseudo-file per block, so that any logged visiting order is a       *)
 (* PickFile order.  Every pop / push-back / break is the matching Detect   *)
@@ -20,19 +24,31 @@ Consume == l' = l + 1 /\ TLCSet(1, IF TLCGet(1) < l THEN l ELSE TLCGet(1))
 Silent == UNCHANGED l
 SetOf(s) == {s[k] : k \in 1..Len(s)}
 
-Start == Rec[1]                        \* detect_start, with ctx = fires-sets of all kept blocks
 TrAllDets == <<"affects", "keep-sorted", "keep-unique", "line-pattern", "line-count", "check-ai", "check-lua">>
-TrFileSet == 1..Len(Start.ctx)
-TrNeeds == [f \in TrFileSet |-> [b \in {1} |-> SetOf(Start.ctx[f])]]
+Starts == {k \in 1..Len(Rec) : Rec[k].ev = "detect_start"}
+Max(S) == CHOOSE x \in S : \A y \in S : y <= x
+TrFileSet == 1..Max({Len(Rec[k].ctx) : k \in Starts} \cup {1})
+\* the context of the run that starts with event e: one pseudo-file per kept block (ctx = fires-sets)
+NeedsOf(e) == [f \in TrFileSet |-> [b \in {1} |-> IF f <= Len(e.ctx) THEN SetOf(e.ctx[f]) ELSE {}]]
+
+StartRun(e) ==
+  /\ needs' = NeedsOf(e)
+  /\ enabled' = SetOf(e.enabled) /\ disabled' = SetOf(e.disabled)
+  /\ stack' = EffStack(SetOf(e.enabled), SetOf(e.disabled))
+  /\ undet' = <<>> /\ todo' = 1..Len(e.ctx) /\ cur' = "none" /\ bi' = 0 /\ inst' = <<>> /\ pc' = "file"
 
 TraceInit ==
-  /\ needs = TrNeeds
-  /\ enabled = SetOf(Start.enabled) /\ disabled = SetOf(Start.disabled)
-  /\ stack = EffStack(SetOf(Start.enabled), SetOf(Start.disabled))
-  /\ undet = <<>> /\ todo = FileSet /\ cur = "none" /\ bi = 0 /\ inst = <<>> /\ pc = "file"
+  /\ needs = NeedsOf(Rec[1])
+  /\ enabled = SetOf(Rec[1].enabled) /\ disabled = SetOf(Rec[1].disabled)
+  /\ stack = EffStack(SetOf(Rec[1].enabled), SetOf(Rec[1].disabled))
+  /\ undet = <<>> /\ todo = 1..Len(Rec[1].ctx) /\ cur = "none" /\ bi = 0 /\ inst = <<>> /\ pc = "file"
   /\ l = 1 /\ TLCSet(1, 0)
 
-T_detect_start == Is("detect_start") /\ l = 1 /\ stack = Ev.stack /\ Consume /\ UNCHANGED vars
+\* the first event of a run: the logged stack is the effective stack; a later run starts only after the previous is done
+T_detect_start == /\ Is("detect_start")
+                  /\ IF l = 1 THEN stack = Ev.stack /\ UNCHANGED vars
+                     ELSE pc = "done" /\ StartRun(Ev) /\ EffStack(SetOf(Ev.enabled), SetOf(Ev.disabled)) = Ev.stack
+                  /\ Consume
 \* the next visited block is some not yet visited block on which the logged detectors fire
 S_PickFile == /\ Is("visit_block") /\ pc = "file"
               /\ \E f \in todo : /\ needs[f][1] = SetOf(Ev.fires)
